@@ -12,6 +12,7 @@
 (*   SyncWithPeer(r, p)        syncTree.SyncWithPeer (anti-entropy, head sync)              *)
 (*   FetchTree(r, p)           BuildSyncTreeOrGetRemote by a replica without the object     *)
 (*   Drop(m), Dup(m)           network fates; reordering is free because net is a bag       *)
+(*   DeliverCancelled(m, mode) the message is applied under a context that is / becomes dead   *)
 (* AddRaw is objectTree.AddRawChangesWithUpdater as called by                    *)
 (* syncTree.AddRawChangesFromPeer, with its two sub-paths (Tree.Add + reduceTree *)
 (* versus rebuildFromStorage at the common snapshot).                            *)
@@ -339,6 +340,20 @@ Drop(m) ==
     /\ last' = [act |-> "Drop", m |-> m, emit |-> {}]
     /\ UNCHANGED <<changes, stored, root, attached, heads, phase>>
 
+\* message fate "delivered with a dead context": the stream is closed / the deadline passes before
+\* (mode "before") or while (mode "onwrite": at the handler's first storage write) a head update or a
+\* response that carries changes is applied. The storage write fails, the handler rolls the
+\* in-memory tree back to what is stored (rebuildFromStorage with its own background context) and
+\* returns an error: nothing changes, nothing is sent - for the protocol the message is lost, and the
+\* replica must be exactly where it was (in memory and in storage). Requests and heads-only updates
+\* do not write; for them a dead context is an ordinary delivery.
+DeliverCancelled(m, mode) ==
+    /\ Lossy /\ phase = 1 /\ Take(m) /\ Holds(m.to)
+    /\ m.k \in {"HeadUpdate", "Response"} /\ m.changes # {}
+    /\ net' = net (-) SetToBag({m})
+    /\ last' = [act |-> "DeliverCancelled", m |-> m, mode |-> mode, emit |-> {}]
+    /\ UNCHANGED <<changes, stored, root, attached, heads, phase>>
+
 Dup(m) ==
     /\ phase = 1 /\ Take(m)
     /\ net' = net (+) SetToBag({m})
@@ -370,13 +385,15 @@ ActDeliverRequest ==
 ActDeliverResponse == \E m \in BagToSet(net) : DeliverResponse(m)
 ActDeliverNoTree == \E m \in BagToSet(net) : DeliverNoTree(m)
 ActDrop == \E m \in BagToSet(net) : Drop(m)
+ActDeliverCancelled == \E m \in BagToSet(net), mode \in {"before", "onwrite"} : DeliverCancelled(m, mode)
 ActDup == \E m \in BagToSet(net) : Dup(m)
 ActSyncWithPeer == \E r, p \in Replicas : SyncWithPeer(r, p)
 ActFetchTree == \E r, p \in Replicas : FetchTree(r, p)
 
 Next ==
     \/ ActAddContent \/ ActDeliverHeadUpdate \/ ActDeliverRequest \/ ActDeliverResponse
-    \/ ActDeliverNoTree \/ ActDrop \/ ActDup \/ ActSyncWithPeer \/ ActFetchTree \/ EnterPhase2
+    \/ ActDeliverNoTree \/ ActDrop \/ ActDeliverCancelled \/ ActDup \/ ActSyncWithPeer \/ ActFetchTree
+    \/ EnterPhase2
 
 Phase2Next ==
     /\ phase = 2
